@@ -21,7 +21,9 @@ The session's transport enters through `State.tv` = `ServerSession.supportedVers
 `filterSupportedVersions` at `Server.Connect` (`transportVersions`): `initialize` answers -32022 and
 changes nothing when the transport serves no version the handshake can be negotiated to
 (`Generated.Negotiate.legacyVersionFor` / `negotiatedVersion`, regenerated from `mcp/shared.go`), and
-`server/discover` persists the request's identity only when the transport serves the new protocol.
+`server/discover` persists the request's identity only when the transport serves the new protocol; the
+per-request `_meta` version of every other method is checked against the same list, and -32022 always
+carries it (F34 repair; the unrepaired `handle` uses the SDK's list for both).
 
 The client's receiving side (`ClientSession.handle`) has no gate: `admitClient`.
 -/
@@ -62,6 +64,9 @@ structure Req where
   tag : String := "anon"
   iver : String := ""
   lvl : String := ""
+  /-- `notifications/cancelled` only: its `requestId` member is present and is neither null, a string nor
+  a number (the one member the cancellation preempter decodes since the F33 repair) -/
+  cancelIdBad : Bool := false
   deriving DecidableEq, Repr
 
 /-- `ServerSessionState.InitializeParams`, as far as observable: who set it and with which version. -/
@@ -200,11 +205,14 @@ def checkAndDecode (t : List (Method × Flags)) (r : Req) : Except Int Method :=
         .error (if f.customDecode then initializeNilParams else decodeNilParams)
       else .ok m
 
-/-- `canceller.Preempt` (repaired behaviour: only notifications are inspected): a cancelled
-notification whose params do not decode is dropped by `processResult` without reaching the handler. -/
+/-- `canceller.Preempt` (repaired behaviour: only notifications are inspected, F17; only the `requestId`
+member is decoded, from its raw token, F33): a cancelled notification whose params are not an object, or
+whose `requestId` is not an id, is dropped by `processResult` without reaching `handle`. Params that are
+undecodable for another reason (e.g. a non-string `reason`) pass the preempter and are refused later, by
+`unmarshalParams` — after the per-request metadata was validated and, possibly, adopted. -/
 def preemptDrops (r : Req) : Bool :=
   r.method == some .notifications_cancelled && !r.hasId &&
-    (r.params == .absent || r.params == .wrongType || r.params == .objUndecodable)
+    (r.params == .absent || r.params == .wrongType || (r.params == .objUndecodable && r.cancelIdBad))
 
 /-- Feature methods whose outcome on well-formed params is a success in the harness configuration. -/
 def featureRes (r : Req) : HRes :=
@@ -252,8 +260,17 @@ def dispatch (s : State) (r : Req) : State × Outcome :=
   | .error c => (s, reject r c)
   | .ok m => ((serverHandler s r m).1, .invoked m (serverHandler s r m).2)
 
-def unsupportedVersion (r : Req) : Bool :=
-  usesNew r && !supportedProtocolVersions.contains (metaVersion r)
+/-- The versions a request's `_meta` may name (F34 repair): those the session's TRANSPORT serves
+(`supportedVersions`, read in the critical section at the top of `handle`), as for `initialize`; the
+`server/discover` probe only has to name a version the SDK knows — it is how a client learns the
+transport's versions (pinned by the repo's TestStreamableStateful_AcceptsDiscover). -/
+def acceptedVersions (tv : List String) (r : Req) : List String :=
+  if r.method == some .server_discover then supportedProtocolVersions else tv
+
+/-- The per-request version check of `handle`. The unrepaired `handle` tests the SDK's list for every
+method (`Generated.Gate.perRequestVersionsFromTransport = false`). -/
+def unsupportedVersion (tv : List String) (r : Req) : Bool :=
+  usesNew r && !(acceptedVersions tv r).contains (metaVersion r)
 
 /-- `ServerSession.handle` for one envelope (after the preempter). -/
 def admitReq (s : State) (r : Req) : State × Outcome :=
@@ -261,8 +278,8 @@ def admitReq (s : State) (r : Req) : State × Outcome :=
   match metaError r with
   | some c => (s, reject r c)
   | none =>
-    if unsupportedVersion r then
-      (s, reject r codeUnsupportedProtocolVersion supportedProtocolVersions)
+    if unsupportedVersion s.tv r then
+      (s, reject r codeUnsupportedProtocolVersion s.tv)
     else
       match gate s.init.isSome (usesNew r) r.method with
       | .refuse c => (s, reject r c)
